@@ -57,7 +57,7 @@ def main():
         if demo:
             # demo on the clean tree
             files = [f for f in glob.glob(os.path.join(sd, "*")) if os.path.basename(f) not in ("patch.diff", "meta.json", "result.json")]
-            ddir = os.path.join(wt, meta.get("demo_dir", "."))
+            ddir = os.path.join(wt, (meta.get("demo_dir", ".").split() or ["."])[0])
             os.makedirs(ddir, exist_ok=True)
             for f in files:
                 if os.path.isdir(f):
